@@ -601,7 +601,7 @@ HIST: dict[str, dict[str, list]] = {
     'InlineComment': {'init': [('value', 'x'), ('raw', ';x')], 'value': ['', 'a', '\t;"x '], 'raw': [';', ';a', ';   b\x0c']},
     'Date': {'init': [('value', [2000, 1, 1]), ('raw', '2000/1/2')], 'value': [[2000, 1, 1], [2024, 2, 29], [999, 12, 31]],
              'raw': ['2000-01-01', '2024/2-9', '0001-12-31']},
-    'Number': {'init': [('value', '1'), ('raw', '1,000.50')], 'value': ['0', '1.50', '1000'], 'raw': ['1,000.5', '0.', '007']},
+    'Number': {'init': [('value', '1'), ('raw', '1,000.50')], 'value': ['0', '1.50', '1000', '1.00', '1000.0'], 'raw': ['1,000.5', '0.', '007']},
     'MetaKey': {'init': [('value', 'aa'), ('raw', 'b-_:')], 'value': ['aa', 'a-b_C9', 'zz'], 'raw': ['aa:', 'xY-:', 'a0:']},
     'Indent': {'init': [('value', '  '), ('raw', '\t')], 'value': [' ', '\t', '    '], 'raw': ['  ', '\t\t', ' \t']},
     'Tag': {'init': [('value', 'a'), ('raw', '#b')], 'value': ['a', 'A-/.', '0_'], 'raw': ['#a', '#-', '#a.b/c']},
